@@ -48,7 +48,8 @@ pub fn generate(rng: &mut Rng, idx: usize, _tier: Tier) -> CaseOut {
         let mut start = layout(lang, rng, idx / 5 + bi);
         let end = if md { Place { form: if matches!(start.form, Form::Line(_)) { Form::Line(0) } else { Form::BlockOne }, ..Place::block_one() } } else if lang.line.is_empty() { Place::block_one() } else { Place::line() };
         let w = |t: &str| if permissive { t.to_string() } else { lang.wrap_token(t) };
-        let ind = |rng: &mut Rng| ["", "  ", "\t", "    "][rng.below(4)].to_string();
+        // indentation incl. multi-byte Unicode whitespace (stripped by trim(), several bytes per column)
+        let ind = |rng: &mut Rng| if permissive { ["", "  ", "\t", "    ", "\u{a0}", "\u{3000} ", "\u{2003}\u{a0}"][rng.below(7)].to_string() } else { ["", "  ", "\t", "    "][rng.below(4)].to_string() };
         let mut attrs: Vec<(String, String)> = Vec::new();
         if rng.chance(1, 2) {
             attrs.push(("name".into(), format!("b{bi}")));
@@ -125,7 +126,13 @@ pub fn generate(rng: &mut Rng, idx: usize, _tier: Tier) -> CaseOut {
         }
         tags.push(format!("rule:{}", ["sorted", "unique", "pattern", "count", "lua"][rule]));
         tags.push(format!("layout:{}", match start.form { Form::Line(_) => "line", Form::BlockOne => "block-one", Form::BlockMulti { after: 0, .. } => "tag-on-last-line", Form::BlockMulti { .. } => "comment-continues" }));
-        nodes.push(GNode::Blk(GBlock { tag, start, end, end_tag: "</block>".into(), body: lines.into_iter().map(GNode::Text).collect() }));
+        let blk = GBlock { tag, start, end, end_tag: "</block>".into(), body: lines.into_iter().map(GNode::Text).collect() };
+        if md && matches!(blk.start.form, Form::BlockOne) && matches!(blk.end.form, Form::BlockOne) && rng.chance(1, 2) {
+            tags.push("md-list-item".into());
+            nodes.push(GNode::MdListItem(vec![GNode::Blk(blk)]));
+        } else {
+            nodes.push(GNode::Blk(blk));
+        }
         nodes.push(GNode::Text(lang.code[rng.below(lang.code.len())].to_string()));
         kplans.push(plan);
         tcodes.push(tcode);
